@@ -279,7 +279,7 @@ def finish(res, claim, t_start, extra_cov=None):
                     reproduced = re.search(name + r"[^\n]*(FAILED|panicked)", log) is not None and "REPLAY-VIOLATION-REPRODUCED" in log
                     o["replayed"] = bool(reproduced)
                     o["replay_log"] = log[-1500:]
-                    o["replay_test_source"] = rp.PRELUDE + "\n" + srcs[o["id"]]
+                    o["replay_test_source"] = srcs[o["id"]]
     for o in res.obligations:
         if o["status"] != "failed":
             continue
